@@ -12,11 +12,12 @@ _SKIP = [x.split('/')[-1] for x in _TUS]
 def _h(hid, defs, cap=400):
     return {'id': hid, 'property': 'C10', 'src': 'c10_traits.cxx', 'entry': 'harness_c10_traits', 'tus': _TUS, 'cut': _CUT, 'skip_ctors': _SKIP,
             'models': ['list.c'], 'desc': 'x', 'domain': 'x', 'oracle': 'x',
-            'bounds': {'quick': {'defs': defs, 'unwind': 7, 'unwindset': {'harness_c10_traits.0': 20, 'harness_c10_traits.1': 20, '_ZL11check_classii.0': 8, '_ZL11check_classii.1': 8, '_ZL11check_classii.2': 8, 'll_memcpy.0': 48, 'll_memmove.0': 48}, 'cap': cap}}}
+            'bounds': {'quick': {'defs': defs, 'unwind': 7, 'unwindset': {'harness_c10_traits.0': 20, 'harness_c10_traits.1': 20, '_ZL11check_classii.0': 50, '_ZL11check_classii.1': 50, '_ZL11check_classii.2': 50, '_ZL11check_classii.3': 50, 'll_memcpy.0': 48, 'll_memmove.0': 48}, 'cap': cap}}}
 
 
 HARNESSES = [
- dict(_h('c10_q1', {'C10_PROBE2': 2}, cap=100), entry='harness_c10_probe2'),
+ _h('c10_k1', {'MEMS': 1, 'PRESENCE': '0x80', 'DTORS': 0}, cap=300),
+ _h('c10_k2', {'MEMS': 1, 'PRESENCE': '0x02', 'DTORS': 0}, cap=300),
 ]
 
 PROPERTY_INFO = {'C10': {'level': 'model_checking', 'explanation': 'x', 'outside': 'x', 'assumptions': []}}
